@@ -20,6 +20,7 @@ std::vector<int> mixedForests(Gen& G, int d, bool withRel)
     if (withRel) {
         fs.push_back(G.addForest(G.forestSpec(d, true, 'B', 'M', "FQI"[R.below(3)], R.chance(40))));
         if (R.chance(60)) fs.push_back(G.addForest(G.forestSpec(d, true, 'I', 'M', "FQI"[R.below(3)], R.chance(40))));
+        if (R.chance(35)) fs.push_back(G.addForest(G.forestSpec(d, true, 'R', 'T', "FQI"[R.below(3)], R.chance(40))));    // EV*: errors with edge values
     }
     return fs;
 }
@@ -118,20 +119,40 @@ Program genC16(Rand& R, int tier)
         else if (k < 92) {
             // a zero divisor met deep in the recursion: dividend nowhere zero, divisor zero at one full point
             int fi = -1;
-            for (int f : f0) if (G.P.forests[size_t(f)].range == 'I' && !G.P.forests[size_t(f)].rel && G.P.forests[size_t(f)].label != 'X' && R.chance(60)) fi = f;
+            for (int f : f0) {
+                const FSpec& Sf = G.P.forests[size_t(f)];
+                const bool intSet = Sf.range == 'I' && !Sf.rel && Sf.label != 'X';
+                const bool evStar = Sf.label == 'T';          // edge-valued: the result edge value is at stake too
+                if ((intSet || evStar) && R.chance(60)) fi = f;
+            }
             if (fi < 0) continue;
-            int x = G.freeSlot(14); G.genFunction(x, fi, 8, true);
-            int y = G.freeSlot(14);
+            int x = G.freeSlot(14);
             const FSpec& S = G.P.forests[size_t(fi)];
-            // divisor: non-zero default, value 0 at the last point (all variables at their maximum)
-            Step m{"mt"};
-            for (int s : G.P.domains[size_t(S.dom)]) m.push_back(Gen::num(s - 1));
-            m.push_back("0");
-            G.emit(m);
-            G.emit({"coll", Gen::num(y), Gen::num(fi), "min", Gen::num(R.range(1, 7))});
+            const bool real = S.range == 'R';
+            if (real && R.chance(30)) G.emit({"const", Gen::num(x), Gen::num(fi), "r0"});       // 0 / 0
+            else G.genFunction(x, fi, 8, true);
+            G.setLive(x, fi);
+            int y = G.freeSlot(14);
+            if (real && R.chance(40)) {
+                // the constant zero as divisor
+                G.emit({"const", Gen::num(y), Gen::num(fi), "r0"});
+            } else {
+                // divisor: non-zero default, value 0 at the last point (all variables at their maximum)
+                Step m{"mt"};
+                for (int s : G.P.domains[size_t(S.dom)]) m.push_back(Gen::num(s - 1));
+                if (S.rel) for (int s : G.P.domains[size_t(S.dom)]) m.push_back(Gen::num(s - 1));
+                m.push_back(real ? "r0" : "0");
+                G.emit(m);
+                G.emit({"coll", Gen::num(y), Gen::num(fi), "min", (real ? "r" : "") + Gen::num(R.range(1, 7))});
+            }
             G.setLive(y, fi);
             int z = G.freeSlot(14);
-            G.emit({"bin", R.chance(70) ? "DIVIDE" : "MODULO", Gen::num(x), Gen::num(y), Gen::num(z), Gen::num(fi)});
+            // (the result edge is fresh, an operand, or an edge that already holds a function: a rejected
+            // call must leave it as it was)
+            Step dz{"bin", R.chance(70) ? "DIVIDE" : "MODULO", Gen::num(x), Gen::num(y), Gen::num(z), Gen::num(fi)};
+            const int how = int(R.below(4));
+            if (how == 1) dz.push_back("used"); else if (how == 2) dz.push_back("ia"); else if (how == 3) dz.push_back("ib");
+            G.emit(dz);
         }
         else if (k < 96) { G.emit({"iter", Gen::num(a)}); }
         else {
